@@ -115,9 +115,129 @@ def rand_block(rng, n, canonical=True):
     return (a, n)
 
 
-# --------------------------------------------------------------------------- generators
-
 BAD40 = [(V4AFI, [(0, bytes([10, 0, 0, 0, 0]))])]          # the probe's 40-bit address
+
+# --------------------------------------------------------------------------- extension values (shared with C10)
+
+AFIS = [V4AFI, V4AFI, V4AFI, V4AFI, b"", bytes([0]), bytes([1]), bytes([0, 1]), bytes([0, 2]), bytes([0, 1, 1, 0]),
+        bytes([0, 1, 1, 0, 0]), bytes([0, 2, 1]), bytes([0, 1, 2]), bytes([1, 1, 1])]
+
+
+def rand_wire_addr(rng):
+    r = rng.random()
+    if r < 0.35:      # well-formed block
+        return enc_block(*rand_block(rng, rng.randrange(33)))
+    if r < 0.55:      # too many bits
+        nb = rng.choice([5, 5, 6, 8, 16])
+        pad = rng.choice([0, 0, 3, 7])
+        return (pad, bytes(rng.getrandbits(8) for _ in range(nb - 1)) + bytes([(rng.getrandbits(8) >> pad) << pad]))
+    if r < 0.65:      # padding out of range / padding without data
+        return (rng.choice([8, 9, 255, 1, 7]), rng.choice([b"", b"\x0a", b"\x0a\x00"]))
+    if r < 0.8:       # set padding bits
+        a, n = rand_block(rng, rng.choice([1, 4, 9, 12, 17, 23, 25, 31]), canonical=False)
+        return enc_block(a | 1, n)
+    # exactly 32 / 0 bits, non-minimal shapes
+    return rng.choice([(0, bytes([10, 1, 2, 3])), (0, b""), (7, bytes([128])), (1, bytes([10, 0, 0, 2]))])
+
+
+def rand_wire_fams(rng):
+    """structure-aware extension value: 0-3 families, address family octet strings of 0-5 octets, 0-4
+    addresses each of which is well-formed, oversized, mis-padded, or oddly shaped"""
+    fams = []
+    for _ in range(rng.choice([0, 1, 1, 1, 2, 3])):
+        afi = rng.choice(AFIS) if rng.random() < 0.9 else bytes(rng.getrandbits(8) for _ in range(rng.randrange(6)))
+        fams.append((afi, [rand_wire_addr(rng) for _ in range(rng.choice([0, 1, 1, 2, 4]))]))
+    return fams
+
+
+def fams_peer(rng, fams):
+    """an IPv4 address inside one of the well-formed looking blocks (60 %) or anywhere"""
+    cand = [d for afi, ad in fams for (p, d) in ad if 0 < len(d) <= 4]
+    if cand and rng.random() < 0.6:
+        return int.from_bytes(rng.choice(cand).ljust(4, b"\0"), "big") | rng.getrandbits(3)
+    return rng.getrandbits(32)
+
+
+def tlv_raw(tag, content, length=None):
+    """TLV whose length octets may lie"""
+    return bytes([tag]) + (der_len(len(content)) if length is None else length) + content
+
+
+def rand_tree_der(rng):
+    """extension values whose TLV structure itself is off: wrong tags, lying or indefinite lengths,
+    truncated sequences, nested garbage, RFC 3779 forms the Go struct does not know (NULL = inherit,
+    address ranges). Returns DER bytes; what encoding/asn1 makes of them is reported by the harness."""
+    t_afi = rng.choice([0x04] * 6 + [0x03, 0x0c, 0x02, 0x05, 0x30, 0x24, 0x84])
+    t_bits = rng.choice([0x03] * 6 + [0x04, 0x30, 0x23, 0x02, 0x05])
+    t_fam = rng.choice([0x30] * 6 + [0x31, 0x04, 0x10, 0xa0])
+    t_addrs = rng.choice([0x30] * 6 + [0x31, 0x05, 0x04])
+    t_outer = rng.choice([0x30] * 8 + [0x31, 0x04, 0xa0])
+    fam_items = []
+    for _ in range(rng.choice([1, 1, 2, 3])):
+        afi = rng.choice(AFIS)
+        bits = b""
+        for _ in range(rng.choice([0, 1, 2, 3])):
+            pad, data = rand_wire_addr(rng)
+            q = rng.random()
+            if q < 0.12:
+                bits += tlv_raw(0x05, b"")                                   # NULL: "inherit"
+            elif q < 0.24:                                                    # addressRange { min, max }
+                bits += tlv_raw(0x30, tlv_raw(0x03, bytes([pad & 255]) + data) + tlv_raw(0x03, b"\x00\x0b"))
+            elif q < 0.3:
+                bits += tlv_raw(t_bits, b"")                                 # BIT STRING without the padding octet
+            else:
+                bits += tlv_raw(t_bits, bytes([pad & 255]) + data)
+        items = [tlv_raw(t_afi, afi), tlv_raw(t_addrs, bits)]
+        q = rng.random()
+        if q < 0.1:
+            items = items[:1]                                                 # addresses missing
+        elif q < 0.2:
+            items.append(rng.choice([tlv_raw(0x05, b""), tlv_raw(0x30, items[0]), tlv_raw(0x0c, b"x" * rng.randrange(40))]))
+        elif q < 0.27:
+            items.reverse()
+        elif q < 0.33:
+            items = [tlv_raw(0x30, b"".join(items))]                          # one level too deep
+        fam_items.append(tlv_raw(t_fam, b"".join(items)))
+    body = b"".join(fam_items)
+    der = tlv_raw(t_outer, body)
+    q = rng.random()
+    if q < 0.12:
+        der = tlv_raw(t_outer, body, length=der_len(len(body) + rng.choice([1, 2, 7, 200])))   # claims more than there is
+    elif q < 0.2 and body:
+        der = tlv_raw(t_outer, body, length=der_len(max(0, len(body) - rng.choice([1, 2, 5]))))  # claims less
+    elif q < 0.26:
+        der = tlv_raw(t_outer, body + b"\x00\x00", length=b"\x80")                               # indefinite length
+    elif q < 0.32:
+        der = tlv_raw(t_outer, body, length=bytes([0x81, len(body) & 0x7f]) if len(body) < 128 else None)  # non-minimal length
+    elif q < 0.36:
+        der = tlv_raw(t_outer, body, length=b"\x84\xff\xff\xff\xff")
+    elif q < 0.5 and len(der) > 2:
+        der = der[:rng.randrange(1, len(der))]                                                   # cut anywhere
+    elif q < 0.54:
+        der = rng.choice([b"", b"\x30", b"\x30\x00", b"\x05\x00", b"\x30\x80", b"\x30\x02\x30\x00", b"\x30\x04\x30\x02\x04\x00"])
+    return der
+
+
+def gen_ext_values(rng, n):
+    """the malformed-extension corpus used at library level, at handler level and by C10:
+    list of (DER bytes, wire families or None, peer address as int)"""
+    out = [(der_ext(BAD40), BAD40, 0x0A000001),
+           (der_ext([(b"", [(0, bytes([10]))])]), [(b"", [(0, bytes([10]))])], 0x0A000001),          # empty address family
+           (der_ext([(bytes([0]), [(0, bytes([10]))])]), [(bytes([0]), [(0, bytes([10]))])], 0x0A000001),
+           (der_ext([(bytes([0, 1]), [(0, bytes([10]))])]), [(bytes([0, 1]), [(0, bytes([10]))])], 0x0A000001)]
+    while len(out) < n:
+        if rng.random() < 0.6:
+            fams = rand_wire_fams(rng)
+            der = der_ext(fams)
+            if rng.random() < 0.05:
+                der += b"\x05\x00"    # trailing data after the value: asn1.Unmarshal returns it as `rest`
+            out.append((der, fams, fams_peer(rng, fams)))
+        else:
+            out.append((rand_tree_der(rng), None, rng.choice([0x0A000001, rng.getrandbits(32)])))
+    return out[:n]
+
+
+# --------------------------------------------------------------------------- generators
 
 
 def gen_lib(ctx, n_mint, n_wire, n_raw):
@@ -170,42 +290,13 @@ def gen_lib(ctx, n_mint, n_wire, n_raw):
     for nets, addr, cls in mint[:max(n_mint, 1)]:
         ns = ",".join("other" if x == "other" else blk(*x) for x in nets) or "-"
         ops.append(("mint", "mint %s %s" % (ns, c.hexs(addr) if addr else "-"), {"nets": nets, "peer": cls, "addr": addr}))
-    # structured corruption of the extension value (the DER layer is still well-formed TLV)
-    afis = [V4AFI, V4AFI, V4AFI, bytes([0, 2]), bytes([0, 1]), bytes([0, 1, 1, 0]), b"", bytes([0, 2, 1]), bytes([0, 1, 2])]
-    for i in range(n_wire):
-        fams = []
-        for _ in range(rng.choice([0, 1, 1, 1, 2, 3])):
-            afi = rng.choice(afis)
-            addrs = []
-            for _ in range(rng.choice([0, 1, 1, 2, 4])):
-                r = rng.random()
-                if r < 0.35:      # well-formed block
-                    addrs.append(enc_block(*rand_block(rng, rng.randrange(33))))
-                elif r < 0.55:    # too many bits
-                    nb = rng.choice([5, 5, 6, 8, 16])
-                    pad = rng.choice([0, 0, 3, 7])
-                    data = bytes(rng.getrandbits(8) for _ in range(nb - 1)) + bytes([(rng.getrandbits(8) >> pad) << pad])
-                    addrs.append((pad, data))
-                elif r < 0.65:    # padding out of range / padding without data
-                    addrs.append((rng.choice([8, 9, 255, 1, 7]), rng.choice([b"", b"\x0a", b"\x0a\x00"])))
-                elif r < 0.8:     # set padding bits
-                    a, n = rand_block(rng, rng.choice([1, 4, 9, 12, 17, 23, 25, 31]), canonical=False)
-                    addrs.append(enc_block(a | 1, n))
-                else:             # exactly 32 / 0 bits, non-minimal shapes
-                    addrs.append(rng.choice([(0, bytes([10, 1, 2, 3])), (0, b""), (7, bytes([128])), (1, bytes([10, 0, 0, 2]))]))
-            fams.append((afi, addrs))
-        # pick a peer that is inside one of the well-formed looking blocks half of the time
-        cand = [d for afi, ad in fams for (p, d) in ad if 0 < len(d) <= 4]
-        if cand and rng.random() < 0.6:
-            d = rng.choice(cand)
-            pa = int.from_bytes(d.ljust(4, b"\0"), "big") | rng.getrandbits(3)
-        else:
-            pa = rng.getrandbits(32)
+    # structure-aware corruption of the extension value (shared corpus, see gen_ext_values)
+    for der, fams, pa in gen_ext_values(rng, n_wire):
         addr, cls = rng.choice(peer_forms(rng, pa) * 4 + odd_peers(pa))
-        der = der_ext(fams)
-        if rng.random() < 0.05:
-            der += b"\x05\x00"    # trailing data after the value: asn1.Unmarshal returns it as `rest`
-        ops.append(("ver", "ver %s %s" % (der.hex(), c.hexs(addr) if addr else "-"), {"wire": fams, "peer": cls}))
+        if fams is not None:
+            ops.append(("ver", "ver %s %s" % (der.hex() or "-", c.hexs(addr) if addr else "-"), {"wire": fams, "peer": cls}))
+        else:
+            ops.append(("raw", "ver %s %s" % (der.hex() or "-", c.hexs(addr) if addr else "-"), {"peer": cls}))
     ops.append(("ver", "ver absent %s" % c.hexs("10.0.0.1:1"), {"wire": None, "peer": "v4:10.0.0.1"}))
     # byte-level corruption of valid values: the model takes over after encoding/asn1 (its verdict is reported)
     for i in range(n_raw):
@@ -234,16 +325,87 @@ def gen_lib(ctx, n_mint, n_wire, n_raw):
     return ops
 
 
+HOSTILE_NAMES = ["role2", "admin1", "root", "username", "", "role1 ", "ROLE1"]
+
+
+def hostile_blocks(rng, nets):
+    """netblocks a client could ask for instead of its own: wider (same network address, shorter prefix),
+    wider and canonical, narrower, disjoint, everything, other families, garbage"""
+    a, n = rng.choice(nets)
+    out = []
+    for k in (1, 2, rng.randrange(1, 9), n):
+        if n - k >= 0:
+            out.append(blk(a, n - k))                                  # same network address, shorter prefix
+            out.append(blk(a & netmask(n - k), n - k))                 # canonical wider block
+    if n < 32:
+        out.append(blk(a, min(32, n + rng.randrange(1, 9))))           # narrower
+        out.append(blk(a | 1, 32))
+    if n >= 1:
+        out.append(blk(a ^ (1 << (32 - n)), n))                        # the sibling block
+    out += ["0.0.0.0/0", "::/0", "::ffff:%s/%d" % (ip_str(a), 96 + n), blk(rng.getrandbits(32), rng.randrange(33)),
+            "banana", "", ip_str(a), blk(a, n)]
+    return out
+
+
+def hostile_form(rng, nets):
+    """extra form parameters for a refresh: every parameter the role-certificate endpoints know (and a few
+    spellings they do not), with values that would widen, move or rename the credential if honoured"""
+    form = []
+    for _ in range(rng.choice([1, 1, 2, 3])):
+        key = rng.choice(["requestor_netblock"] * 5 + ["target_netblock", "identity", "identity", "duration", "role", "username",
+                                                        "requestor_netblocks", "netblock", "addGroups", "type"])
+        if "netblock" in key:
+            for _ in range(rng.choice([1, 1, 2])):
+                form.append((key, rng.choice(hostile_blocks(rng, nets))))
+        elif key in ("identity", "role", "username"):
+            form.append((key, rng.choice(HOSTILE_NAMES)))
+        elif key == "duration":
+            form.append((key, rng.choice(["1h", "1000000h", "-1h", "x", "0"])))
+        else:
+            form.append((key, rng.choice(["true", "ssh", "x509", "1"])))
+    return form
+
+
+def probes_for(rng, nets, form):
+    """addresses from which a refreshed certificate is then used: inside the original blocks, just outside
+    them, and inside whatever blocks the request asked for"""
+    a, n = rng.choice(nets)
+    ps = [a | (rng.getrandbits(32) & ~netmask(n) & MASK32)]
+    if n >= 1:
+        ps.append((a ^ (1 << (32 - n))) | (rng.getrandbits(32) & ~netmask(n) & MASK32))   # flips the bit just above the prefix
+    ps += boundary_addrs(a, n)[2:]
+    for k, v in form:
+        if "netblock" in k and "/" in v and ":" not in v:
+            try:
+                ra, rn = parse_blocks(v)[0]
+                if 0 <= rn <= 32:
+                    ps.append((ra & netmask(rn)) | (rng.getrandbits(32) & ~netmask(rn) & MASK32))
+            except Exception:
+                pass
+    ps.append(rng.getrandbits(32))
+    out = []
+    for pa in ps[:7]:
+        out.append(rng.choice(peer_forms(rng, pa)[:2]))
+    return out
+
+
 def gen_handler(ctx, n):
+    """ops: (kind nets|raw, chain 1|2, nets | DER bytes, RemoteAddr, expected peer class, env, extra form, probes)"""
     rng = ctx.rng
     ops = []
     # corpus first: the 40-bit extension, presented with a realistic chain from inside "its" block
-    ops.append(("raw", 2, BAD40, "10.0.0.1:443", "v4:10.0.0.1", "010"))
-    ops.append(("raw", 1, BAD40, "192.168.1.1:443", "v4:192.168.1.1", "010"))
+    ops.append(("raw", 2, der_ext(BAD40), "10.0.0.1:443", "v4:10.0.0.1", "010", [], []))
+    ops.append(("raw", 1, der_ext(BAD40), "192.168.1.1:443", "v4:192.168.1.1", "010", [], []))
     # the design-phase probe: refresh from outside with a realistic chain
-    ops.append(("nets", 2, [(0x0A000000, 8)], "192.168.1.1:1234", "v4:192.168.1.1", "010"))
-    ops.append(("nets", 2, [(0x0A000000, 8)], "10.1.2.3:1234", "v4:10.1.2.3", "010"))
-    ops.append(("nets", 2, [(0x0A000000, 8)], "10.1.2.3:1234", "v4:10.1.2.3", "110"))   # deny-listed key
+    ops.append(("nets", 2, [(0x0A000000, 8)], "192.168.1.1:1234", "v4:192.168.1.1", "010", [], []))
+    ops.append(("nets", 2, [(0x0A000000, 8)], "10.1.2.3:1234", "v4:10.1.2.3", "010", [], []))
+    ops.append(("nets", 2, [(0x0A000000, 8)], "10.1.2.3:1234", "v4:10.1.2.3", "110", [], []))   # deny-listed key
+    # a refresh that asks for more than it holds: wider block, other identity; then used from 11.x
+    ops.append(("nets", 2, [(0x0A000000, 8)], "10.1.2.3:1234", "v4:10.1.2.3", "010", [("requestor_netblock", "10.0.0.0/7")],
+                [("11.1.2.3:4000", "v4:11.1.2.3"), ("10.9.9.9:4000", "v4:10.9.9.9")]))
+    ops.append(("nets", 1, [(0x0A000000, 8), (0xC0A80000, 24)], "192.168.0.7:1234", "v4:192.168.0.7", "010",
+                [("requestor_netblock", "192.168.0.0/13"), ("identity", "role2"), ("target_netblock", "0.0.0.0/0")],
+                [("192.172.9.9:4000", "v4:192.172.9.9"), ("11.1.2.3:4000", "v4:11.1.2.3"), ("10.9.9.9:4000", "v4:10.9.9.9")]))
     for nlen in range(33):
         a, _ = rand_block(rng, nlen)
         others = [rand_block(rng, rng.randrange(33)) for _ in range(rng.choice([0, 1, 2]))]
@@ -253,37 +415,38 @@ def gen_handler(ctx, n):
             forms = peer_forms(rng, pa)
             for chain in (1, 2):
                 addr, cls = rng.choice(forms[:2]) if chain == 1 else forms[rng.randrange(len(forms))]
-                ops.append(("nets", chain, nets, addr, cls, "010"))
+                ops.append(("nets", chain, nets, addr, cls, "010", [], []))
         addr, cls = rng.choice(odd_peers(a | 1))
-        ops.append(("nets", rng.choice([1, 2]), nets, addr, cls, "010"))
+        ops.append(("nets", rng.choice([1, 2]), nets, addr, cls, "010", [], []))
+        # from inside, with hostile form parameters, then the refreshed certificate is used
+        form = hostile_form(rng, nets)
+        inside = (a | (rng.getrandbits(32) & ~netmask(nlen) & MASK32))
+        addr, cls = rng.choice(peer_forms(rng, inside)[:2])
+        ops.append(("nets", rng.choice([1, 2]), nets, addr, cls, "010", form, probes_for(rng, nets, form)))
+    ext = gen_ext_values(rng, max(8, n // 4))[4:]
     while len(ops) < n:
         r = rng.random()
         chain = rng.choice([1, 2, 2])
         env = rng.choice(["010"] * 6 + ["110", "000", "100"])
-        if r < 0.7:
+        if r < 0.45:
             nets = [rand_block(rng, rng.randrange(33)) for _ in range(rng.choice([1, 1, 2, 3, 4]))]
             tgt = rng.choice(nets)
             pa = rng.choice(boundary_addrs(*tgt) + [tgt[0] | rng.getrandbits(4), rng.getrandbits(32)])
             addr, cls = rng.choice(peer_forms(rng, pa) * 3 + odd_peers(pa))
-            ops.append(("nets", chain, nets, addr, cls, env))
-        else:
-            fams = []
-            for _ in range(rng.choice([1, 1, 2])):
-                afi = rng.choice([V4AFI, V4AFI, V4AFI, bytes([0, 2])])
-                addrs = []
-                for _ in range(rng.choice([1, 2, 3])):
-                    q = rng.random()
-                    if q < 0.5:
-                        addrs.append(enc_block(*rand_block(rng, rng.randrange(33))))
-                    elif q < 0.8:
-                        addrs.append((rng.choice([0, 4]), bytes([10, 0, 0, 0]) + bytes([rng.getrandbits(4) << 4]) * rng.choice([1, 2, 4])))
-                    else:
-                        addrs.append((rng.choice([8, 1]), rng.choice([b"", b"\x0b"])))
-                fams.append((afi, addrs))
-            cand = [d for afi, ad in fams for (p, d) in ad if 0 < len(d) <= 4]
-            pa = int.from_bytes(rng.choice(cand).ljust(4, b"\0"), "big") if cand and rng.random() < 0.7 else 0x0A000001
+            ops.append(("nets", chain, nets, addr, cls, env, [], []))
+        elif r < 0.72:
+            nets = [rand_block(rng, rng.randrange(33)) for _ in range(rng.choice([1, 1, 2, 3]))]
+            tgt = rng.choice(nets)
+            pa = tgt[0] | (rng.getrandbits(32) & ~netmask(tgt[1]) & MASK32) if rng.random() < 0.85 else rng.getrandbits(32)
+            addr, cls = rng.choice(peer_forms(rng, pa)[:2])
+            form = hostile_form(rng, nets)
+            ops.append(("nets", chain, nets, addr, cls, env, form, probes_for(rng, nets, form)))
+        elif ext:
+            der, fams, pa = ext.pop()
             addr, cls = rng.choice(peer_forms(rng, pa))
-            ops.append(("raw", chain, fams, addr, cls, env))
+            ops.append(("raw", chain, der, addr, cls, env, [], []))
+        else:
+            ext = gen_ext_values(rng, 50)[4:]
     return ops[:n]
 
 
@@ -432,9 +595,10 @@ def run(ctx):
         ctx.broken.append("harness TestVerifC11 did not complete (exit %d, %d/%d lines)" % (rc, len(himpl), len(hops)))
         return c.finish(ctx)
     mops, mimpl, jops, jmeta, extops, extimpl = [], [], [], [], [], []
+    umops, umimpl, ujops, ujmeta = [], [], [], []
     cn = c.hexs("role1")
     for o, line, out in zip(hnd, hops, himpl):
-        kind, chain, arg, addr, cls, env = o
+        kind, chain, arg, addr, cls, env, form, probes = o
         if out.startswith("bad-op") or out.startswith("cert-error") or out.startswith("minterr"):
             ctx.broken.append("handler harness could not run op %r: %s" % (line, out))
             continue
@@ -464,8 +628,28 @@ def run(ctx):
                 nontrivial.add(line)
                 extops.append("mint %s %s" % (ns, cls))
                 extimpl.append(rf[4])
+            if form:
+                hist["with_form_params"] = hist.get("with_form_params", 0) + 1
+                for k, _ in form:
+                    bump(hist.setdefault("form_keys", {}), k)
+            # the refreshed certificate in use: must open exactly what the presented one opened
+            if "use" in f:
+                for (paddr, pcls), u in zip(probes, f["use"].split(",")):
+                    ucls, codes = u.split("~")
+                    if pcls is not None and pcls != ucls:
+                        ctx.broken.append("generator/peer class: probe %r expected %s, stdlib says %s" % (paddr, pcls, ucls))
+                        continue
+                    r2, c2 = codes.split("/")
+                    umops.append("refm %s %s %s %s" % (cn, ns, ucls, env))
+                    umimpl.append("%s/%s" % (r2, c2))
+                    for which, code in (("refresh", r2), ("certgen", c2)):
+                        ujops.append("juse %s %s %s %s" % (ns, ucls, env, code))
+                        ujmeta.append((line, which, paddr))
+                    bump(hist.setdefault("use_status", {}), r2)
         else:
-            mops.append("ref %s %s %s %s" % (cn, wire_str(arg), cls, env))
+            # what encoding/asn1 made of the value is reported by the harness; the model takes over from there
+            bump(hist["parse"], "handler:" + (f["parse"][:1] if f["parse"] != "unparsable" else "unparsable"))
+            mops.append("ref %s %s %s %s" % (cn, f["parse"], cls, env))
             if rf[0] == "200":
                 nontrivial.add(line)
         if rf[0] == "200":
@@ -486,6 +670,22 @@ def run(ctx):
         if v != "ok":
             c.add_violation(ctx, ("panic:" if "panic" in v else "handler:") + line, "%s: %s (judge op %s)" % (which, v, j),
                             {"handler_op": line, "judge": v, "judge_op": j, "which": which})
+    # using the refreshed certificate: statuses per probe address as the model predicts for the ORIGINAL netblocks
+    um = drv(ctx, "model", umops)
+
+    def status_pair(m):
+        f2 = m.split()
+        r2 = "200" if f2[0] == "issued" else (f2[1] if f2[0] == "status" else "PANIC")
+        return "%s/%s" % (r2, kv(m).get("certgen", "?"))
+    c.diff_streams(ctx, "use of a refreshed certificate vs KM.IPBlock.refresh on the presented certificate's netblocks", umops, umimpl,
+                   [status_pair(m) for m in um])
+    usev = []
+    for (line, which, paddr), j, v in zip(ujmeta, ujops, drv(ctx, "judge", ujops)):
+        if v != "ok":
+            # reported first: the end-to-end consequence (a certificate that opens doors the presented one did not)
+            usev.append({"key": "use:" + line, "what": "refreshed certificate used from %s on %s: %s (judge op %s)" % (
+                paddr, which, v, j), "replay": {"handler_op": line, "judge": v, "judge_op": j, "which": which, "probe": paddr}})
+    ctx.violations[:0] = usev
     # extension bytes of refreshed certificates = what minting the same blocks gives
     if extops:
         em = drv(ctx, "model", extops)
@@ -517,8 +717,9 @@ def run(ctx):
     if hist["prefix_lengths_minted"] != 33 and not ctx.replay:
         ctx.broken.append("generator covered %d of 33 prefix lengths" % hist["prefix_lengths_minted"])
     ctx.coverage.update({
-        "evaluations": len(lops) + 2 * len(hnd) + len(gets),
-        "library_ops": len(lops), "handler_requests": 2 * len(hnd) + len(gets), "judged": len(jops),
+        "evaluations": len(lops) + 2 * len(hnd) + len(gets) + 2 * len(umops),
+        "library_ops": len(lops), "handler_requests": 2 * len(hnd) + len(gets) + 2 * len(umops), "judged": len(jops) + len(ujops),
+        "refreshes_with_hostile_form_parameters": hist.get("with_form_params", 0), "uses_of_refreshed_certificates": 2 * len(umops),
         "distinct_nontrivial": len(nontrivial),
         "rule": "non-trivial = distinct ops on which the implementation admitted a peer / issued a certificate, extracted netblocks "
                 "from a hand-built extension, or answered an error for a malformed extension",
@@ -592,15 +793,23 @@ def lib_op_from_line(line):
 def handler_op_from_line(line):
     f = line.split()
     addr = c.unhexs(f[4])
-    cls = None
+    form, probes = [], []
+    if len(f) == 8:
+        from urllib.parse import parse_qsl
+        form = parse_qsl(c.unhexs(f[6]), keep_blank_values=True)
+        probes = [(c.unhexs(x), None) for x in f[7].split(";")] if f[7] != "-" else []
     if f[2] == "nets":
-        return ("nets", int(f[1]), parse_blocks(f[3]), addr, cls, f[5])
-    return ("raw", int(f[1]), parse_der_ext(bytes.fromhex(f[3])), addr, cls, f[5])
+        return ("nets", int(f[1]), parse_blocks(f[3]), addr, None, f[5], form, probes)
+    return ("raw", int(f[1]), bytes.fromhex(f[3]) if f[3] != "-" else b"", addr, None, f[5], form, probes)
 
 
 def handler_line(o):
-    kind, chain, arg, addr, cls, env = o
+    from urllib.parse import urlencode
+    kind, chain, arg, addr, cls, env, form, probes = o
+    tail = ""
+    if form or probes:
+        tail = " %s %s" % (c.hexs(urlencode(form)), ";".join(c.hexs(a) for a, _ in probes) or "-")
     if kind == "nets":
         # strings as the creation handler receives them; net.ParseCIDR in the harness clears host bits
-        return "ref %d nets %s %s %s" % (chain, ",".join(blk(*x) for x in arg) or "-", c.hexs(addr) if addr else "-", env)
-    return "ref %d raw %s %s %s" % (chain, der_ext(arg).hex(), c.hexs(addr) if addr else "-", env)
+        return "ref %d nets %s %s %s%s" % (chain, ",".join(blk(*x) for x in arg) or "-", c.hexs(addr) if addr else "-", env, tail)
+    return "ref %d raw %s %s %s%s" % (chain, arg.hex() or "-", c.hexs(addr) if addr else "-", env, tail)
